@@ -51,7 +51,12 @@ func (c *Config) VerifyConfig(schema base.LogSchema) error {
 	if len(c.Pattern) == 0 {
 		return fmt.Errorf(".pattern is unspecified")
 	}
-	if _, err := splitPattern(c.Pattern); err != nil {
+	position, err := c.position()
+	if err != nil {
+		return err
+	}
+	// build the extractor as NewTransform does: the bracket expression and the boundaries are checked there
+	if _, err := newStringExtractorSimple(position, c.Pattern, c.MaxLength); err != nil {
 		return fmt.Errorf(".pattern is invalid: %w", err)
 	}
 	if c.MaxLength <= 0 {
@@ -66,15 +71,23 @@ func (c *Config) VerifyConfig(schema base.LogSchema) error {
 	return nil
 }
 
-func (c *Config) getPosition() stringExtractorPosition {
+func (c *Config) position() (stringExtractorPosition, error) {
 	switch c.Type {
 	case "extractHead":
-		return extractFromStart
+		return extractFromStart, nil
 	case "extractTail":
-		return extractFromEnd
+		return extractFromEnd, nil
 	default:
-		panic(fmt.Sprintf("unsupported position type '%s'", c.Type))
+		return 0, fmt.Errorf("unsupported position type '%s'", c.Type)
 	}
+}
+
+func (c *Config) getPosition() stringExtractorPosition {
+	position, err := c.position()
+	if err != nil {
+		panic(err.Error())
+	}
+	return position
 }
 
 func (tf *extractSpecialTransform) Transform(record *base.LogRecord) base.FilterResult {
